@@ -300,6 +300,18 @@ META = {
         technique="Lean 4 invariant proofs over atomic-step models (grind per step) + regenerated tie + exhaustive/seeded schedule "
                   "replay of the real primitives under a director",
     ),
+    "C13": dict(
+        text="Proof at model level, evidence at runtime level: every receive path is modelled with its panicking operations explicit "
+             "and proved total (frame parser, reader incl. its memory bound 2*max+12348 on every input and chunking, metadata decoder "
+             "and the server's metadata/invoke loop, gateway header unescaping / context building / error-code extraction / the whole "
+             "ServeHTTP exchange incl. request allocation bounds, stream packet handling after termination and for foreign ids, the "
+             "manager's dispatch decision); two of these obligations exposed real panics in the pinned code (unescape '%%', getCode on a "
+             "nil unwrap), repaired by fix: commits. That the Go code itself never panics or over-allocates is evidenced by running all "
+             "entry points under recover on exhaustive-short, structured and hostile inputs.",
+        design_ref="DESIGN.md §6 C13",
+        note=NOTE_COMMON + "Runtime memory safety is evidenced, not proved.",
+        technique="Lean 4 totality / bound theorems over models with explicit panic outcomes + differential runs under recover",
+    ),
 }
 
 _NYB = "check not built yet in this round (planned: Lean model + correspondence, see DESIGN.md §6)"
